@@ -502,16 +502,24 @@ def literal_lexemes(F, res, R):
             m = _re.search(r'#\[regex\(\s*r?#*"(.*)"#*\s*(?:,.*)?\)\]$', a)
             if m:
                 pats.setdefault(kind, []).append(m.group(1).replace("\\\\", "\\"))
-    best = ("", 0)
-    for kind, ps in pats.items():
-        for p_ in ps:
-            try:
-                m = _re.match(p_, "0.1")
-            except _re.error:
-                continue
-            if m and len(m.group(0)) > best[1]:
-                best = (kind, len(m.group(0)))
+    def munch(text):
+        best = ("", 0)
+        for kind, ps in pats.items():
+            for p_ in ps:
+                try:
+                    m = _re.match(p_, text)
+                except _re.error:
+                    continue
+                if m and len(m.group(0)) > best[1]:
+                    best = (kind, len(m.group(0)))
+        return best
+    best = munch("0.1")
     ti = "TUPLE_INDEX" in R.get("finish_sites", {}) or any(v.get("kind") == "TUPLE_INDEX" for v in R["finish_sites"].values())
     res.ob("G6", "adjacent/tuple-index-chain", "in `t.0.1` the text `0.1` after the first `.` is lexed as INTEGER `.` INTEGER (two tuple indices), "
            "not swallowed by a longer token", ti and best[0] == "INTEGER" and best[1] == 1, where="crates/syntax/src/kind.rs",
            how="longest match at `0.1`: %s (%d characters)" % best)
+    # ... and a tuple index followed by a field access: in `t.0.name` the text `0.name` starts with the INTEGER `0`, the `.` is a token
+    # of its own (a FLOAT regex that accepts `0.` would swallow it)
+    best2 = munch("0.name")
+    res.ob("G6", "adjacent/tuple-index-then-field", "in `t.0.name` the text `0.` is lexed as INTEGER then `.`", ti and best2 == ("INTEGER", 1),
+           where="crates/syntax/src/kind.rs", how="longest match at `0.name`: %s (%d characters)" % best2)
